@@ -378,6 +378,42 @@ func runOne(rc runCfg) (string, map[string]interface{}, string) {
 			}
 		}
 	}
+	// the first challenge of the call must be answered (the client may give up on later ones, that is what bounds it)
+	for i := 0; i < len(sc.reqs); i++ {
+		if sc.at(i) == r401Neg {
+			if i+1 >= len(sc.reqs) {
+				detail["step"], detail["outcome"], detail["err"] = i, outcome, fmt.Sprint(derr)
+				return "first-challenge-not-answered:" + spnKind(rc), detail, ""
+			}
+			break
+		}
+	}
+	// every request that carries a Negotiate token - also one sent after a redirect - carries a token that the
+	// acceptor of the host it goes to accepts, and never the token of an earlier request again (an acceptor
+	// with a replay cache refuses a repeated authenticator)
+	seenTok := map[string]int{}
+	for j, rq := range sc.reqs {
+		if rq.Auth == "" {
+			continue
+		}
+		if k, dup := seenTok[rq.Auth]; dup {
+			detail["step"], detail["same_as_request"] = j, k
+			return "token-of-an-earlier-request-sent-again", detail, ""
+		}
+		seenTok[rq.Auth] = j
+		spn := rc.SPN
+		if spn == "" {
+			host := strings.Split(strings.TrimPrefix(rq.URL, "http://"), "/")[0]
+			if rc.CNAME != "" && host == "www.test.gokrb5" {
+				host = strings.ToLower(strings.TrimSuffix(rc.CNAME, "."))
+			}
+			spn = "HTTP/" + host
+		}
+		if err := accept(w, rq.Auth, spn, vclock.Now()); err != nil {
+			detail["step"], detail["acceptor"] = j, err.Error()
+			return "token-not-acceptable-at-its-destination:" + spnKind(rc), detail, ""
+		}
+	}
 	// an unanswered challenge at the end must end in an error or the 401 itself, never in silence
 	return "", detail, fmt.Sprintf("%d/%s", len(sc.reqs), outcome)
 }
